@@ -736,6 +736,11 @@ func (s *scanningState) scan(line []byte) (bool, error) {
 			s.state = betweenRaceOperations
 			return true, nil
 		}
+		if bytes.Equal(trimmed, raceHeaderFooter) {
+			// No goroutine has a 'created at' section.
+			s.state = done
+			return true, nil
+		}
 		c := Call{}
 		if found, err := parseFunc(&c, trimLeftSpace(trimmed)); found {
 			cur.Stack.Calls = append(cur.Stack.Calls, c)
